@@ -294,7 +294,7 @@ func C16(c *vk.Ctx) {
 	for _, sig := range []string{"verify", "verify_log", "none"} {
 		cfgs = append(cfgs,
 			HubCfg{Mode: "crl_only", Sig: sig, Strict: true, Fetch: "actively", Disk: true, TrustA: false, Conf: "url", Ocsp: "noaia"},
-			HubCfg{Mode: "crl_only", Sig: sig, Strict: false, Fetch: "background", Disk: true, TrustA: true, Conf: "file", Ocsp: "noaia"})
+			HubCfg{Mode: "crl_only", Sig: sig, Strict: false, Fetch: "background", Disk: false, TrustA: true, Conf: "file", Ocsp: "noaia"})
 		if c.Thorough() {
 			cfgs = append(cfgs,
 				HubCfg{Mode: "crl_only", Sig: sig, Strict: true, Fetch: "background", Disk: false, TrustA: false, Conf: "url", Ocsp: "noaia"},
@@ -302,7 +302,7 @@ func C16(c *vk.Ctx) {
 				HubCfg{Mode: "prefer_ocsp", Sig: sig, Strict: false, Fetch: "actively", Disk: true, TrustA: false, Conf: "none", Ocsp: "good"})
 		}
 	}
-	hubCampaign(c, cfgs, c.Pick(1800, 40000), c.Pick(2, 10), 60, predC16)
+	hubCampaign(c, cfgs, c.Pick(1500, 40000), c.Pick(1, 10), 60, predC16)
 	c.Set("spec", "Revocation.tla: VerifyNeverInForce (invariant), LenientRefreshWorks (action property), PolicyAccepts used by every intake action with the context table of DESIGN 3.4")
 	c.Set("rule", "as C01; intake paths: provision-time configured CRL (url/file), first CDP fetch, background load, refresh, each also after restart; signer status: resolvable (A in chain / trusted), unknown (sibling key S, foreign CA B), wrong; predicates compare the real verdict with what the policy ghost demands per signature mode")
 }
